@@ -128,6 +128,7 @@ def make_wrapper(key, ccls, orig, is_init=False):
             old_env = copy.deepcopy(env, memo)
         except Exception:
             old_env, memo = dict(env), None
+        old_env["WORLD"] = dsl.WORLD.snapshot()
         try:
             result = orig(*args, **kwargs)
         except BaseException as ex:
@@ -236,12 +237,59 @@ def locate(key):
     return mod, owner, name, raw, setter
 
 
+def install_world_recorders():
+    """os.makedirs / open(...,'w').write / print as used by cminx record into dsl.WORLD (and still happen)."""
+    import builtins
+    import os as _os
+    import cminx
+    import cminx.rstwriter as rw
+    if getattr(_os.makedirs, "_pyvc", False):
+        return
+    real_makedirs = _os.makedirs
+
+    def makedirs(p, *a, **k):
+        dsl.WORLD.made.append(p)
+        return real_makedirs(p, *a, **k)
+    makedirs._pyvc = True
+    _os.makedirs = makedirs
+
+    class _F:
+        def __init__(self, f, path):
+            self._f, self._path = f, path
+
+        def write(self, text):
+            dsl.WORLD.wpaths.append(self._path)
+            dsl.WORLD.wdata.append(text)
+            return self._f.write(text)
+
+        def __enter__(self):
+            self._f.__enter__()
+            return self
+
+        def __exit__(self, *a):
+            return self._f.__exit__(*a)
+
+        def __getattr__(self, n):
+            return getattr(self._f, n)
+
+    def rec_open(path, mode="r", *a, **k):
+        f = builtins.open(path, mode, *a, **k)
+        return _F(f, path) if "w" in mode else f
+    rw.open = rec_open
+
+    def rec_print(*args, **k):
+        dsl.WORLD.out.append(" ".join(str(x) for x in args) + "\n")
+        return builtins.print(*args, **k)
+    cminx.print = rec_print
+
+
 def install(contract_modules, only=None):
     """Import the contract modules and wrap every function that has a (non-external) contract."""
     here = os.path.dirname(os.path.dirname(os.path.abspath(__file__)))
     if here not in sys.path:
         sys.path.insert(0, here)
     prepare_snapshots()
+    install_world_recorders()
     for m in contract_modules:
         importlib.import_module(m)
     installed = []
